@@ -86,6 +86,21 @@ fn do_read(log: &mut Log, data: &[u8], mode: &str, fault: &str) {
     });
 }
 
+fn item<E>(res: Result<Record, E>) -> Value {
+    match res {
+        Ok(rec) => {
+            let mut aux = vec![];
+            let mut i = 3;
+            while let Some(x) = rec.aux(i) {
+                aux.push(bytes(x.as_bytes()));
+                i += 1;
+            }
+            json!({"ok": 1, "chrom": bytes(rec.chrom().as_bytes()), "start": dec(rec.start()), "end": dec(rec.end()), "aux": Value::Array(aux)})
+        }
+        Err(_) => json!({"ok": 0}),
+    }
+}
+
 fn rand_rec(rng: &mut Rng, k: usize, log: &mut Log) -> Rec {
     let aux: Vec<Vec<u8>> = (0..k)
         .map(|i| match (i, rng.below(5)) {
@@ -201,6 +216,166 @@ pub fn drive(log: &mut Log) {
             }
         }
         let _ = std::fs::remove_file(&path);
+    }
+
+    // the Record API: records built through setters called twice (last wins), push_aux order,
+    // copied mid-history (clone, clone_from into a used record, serde_json round trip, Default +
+    // setters); every accessor is judged; then written, and the reader's iterator is consumed
+    // through count() / last() / nth() / skip()
+    for _ in 0..log.opts.n(120, 1200) {
+        case += 1;
+        if !log.mine(case) {
+            continue;
+        }
+        let mut rng = Rng::new(seed, 118, case);
+        let k = rng.range(0, 6) as usize;
+        if !log.begin("api", json!({"k": k})) {
+            continue;
+        }
+        let n = rng.range(2, 5) as usize;
+        let recs: Vec<Rec> = (0..n).map(|_| rand_rec(&mut rng, k, log)).collect();
+        let mut built: Vec<Record> = vec![];
+        for r in recs.iter() {
+            let how = *rng.pick(&["twice", "clone", "clone_from", "serde", "default"]);
+            let junk = rand_rec(&mut rng, k, log);
+            let mut x = Record::new();
+            log.call("accessors", json!({"rec": rec_json(r), "how": how}), || {
+                x = match how {
+                    "twice" => {
+                        // every setter first with another value, then with the final one
+                        let mut y = to_record(&junk, true);
+                        y.set_chrom(&s(&r.chrom));
+                        y.set_start(r.start);
+                        y.set_end(r.end);
+                        if k >= 1 {
+                            y.set_name(&s(&r.aux[0]));
+                        }
+                        if k >= 2 {
+                            y.set_score(&s(&r.aux[1]));
+                        }
+                        // later columns cannot be overwritten through the API: rebuild them
+                        if k >= 3 {
+                            let mut z = Record::new();
+                            z.set_chrom(y.chrom());
+                            z.set_start(y.start());
+                            z.set_end(y.end());
+                            z.set_name(y.name().unwrap());
+                            z.set_score(y.score().unwrap());
+                            for a in r.aux[2..].iter() {
+                                z.push_aux(&s(a));
+                            }
+                            y = z;
+                        }
+                        y
+                    }
+                    "clone" => {
+                        // copy after half of the columns, finish the copy, spoil the original
+                        let mut y = Record::new();
+                        y.set_chrom(&s(&r.chrom));
+                        y.set_start(r.start);
+                        y.set_end(r.end);
+                        let half = k / 2;
+                        for a in r.aux[..half].iter() {
+                            y.push_aux(&s(a));
+                        }
+                        let mut c = y.clone();
+                        y.push_aux("spoiled");
+                        y.set_start(7);
+                        for a in r.aux[half..].iter() {
+                            c.push_aux(&s(a));
+                        }
+                        c
+                    }
+                    "clone_from" => {
+                        let mut used = to_record(&junk, false);
+                        used.push_aux("longer");
+                        used.clone_from(&to_record(r, false));
+                        used
+                    }
+                    "serde" => {
+                        let js = serde_json::to_string(&to_record(r, true)).unwrap();
+                        serde_json::from_str::<Record>(&js).unwrap()
+                    }
+                    _ => {
+                        let mut y = Record::default();
+                        y.set_chrom(&s(&r.chrom));
+                        y.set_start(r.start);
+                        y.set_end(r.end);
+                        for a in r.aux.iter() {
+                            y.push_aux(&s(a));
+                        }
+                        y
+                    }
+                };
+                let mut aux = vec![];
+                let mut i = 3;
+                while let Some(a) = x.aux(i) {
+                    aux.push(bytes(a.as_bytes()));
+                    i += 1;
+                }
+                let opt = |o: Option<&str>| match o {
+                    Some(t) => json!({"some": 1, "v": bytes(t.as_bytes())}),
+                    None => json!({"some": 0, "v": []}),
+                };
+                let strand = match x.strand() {
+                    Some(bio_types::strand::Strand::Forward) => 1,
+                    Some(bio_types::strand::Strand::Reverse) => -1,
+                    Some(bio_types::strand::Strand::Unknown) => 2,
+                    None => 0,
+                };
+                json!({"chrom": bytes(x.chrom().as_bytes()), "start": dec(x.start()), "end": dec(x.end()),
+                    "name": opt(x.name()), "score": opt(x.score()), "strand": strand, "aux": Value::Array(aux),
+                    "eq_rebuilt": (x == to_record(r, false)) as u8})
+            });
+            built.push(x);
+            log.oblige(match how {
+                "twice" => "bed_setter_twice",
+                "clone" => "bed_record_clone_mid_history",
+                "clone_from" => "bed_record_clone_from",
+                "serde" => "bed_record_serde",
+                _ => "bed_record_default",
+            });
+        }
+        // write the records that were actually built (one writer object)
+        let mut data: Vec<u8> = vec![];
+        log.call("write", json!({"recs": Value::Array(recs.iter().map(rec_json).collect()), "setters": 2, "q": 0}), || {
+            let mut errs = 0;
+            {
+                let mut w = Writer::new(&mut data);
+                for r in built.iter() {
+                    if w.write(r).is_err() {
+                        errs += 1;
+                    }
+                }
+            }
+            json!({"bytes": bytes(&data), "errs": errs})
+        });
+        do_read(log, &data, "exact", "none");
+        for via in ["count", "last", "nth", "skip"].iter() {
+            let j = rng.below(n as u64 + 1) as usize;
+            let mut a = mode_json("via", &data, via);
+            a["via"] = json!(via);
+            a["j"] = json!(j);
+            log.call("read_via", a, || {
+                let mut rd = Reader::new(&data[..]);
+                match *via {
+                    "count" => json!({"n": rd.records().count(), "recs": []}),
+                    "last" => match rd.records().last() {
+                        Some(x) => json!({"n": 1, "recs": [item(x)]}),
+                        None => json!({"n": 0, "recs": []}),
+                    },
+                    "nth" => match rd.records().nth(j) {
+                        Some(x) => json!({"n": 1, "recs": [item(x)]}),
+                        None => json!({"n": 0, "recs": []}),
+                    },
+                    _ => {
+                        let v: Vec<Value> = rd.records().skip(j).map(item).collect();
+                        json!({"n": v.len(), "recs": v})
+                    }
+                }
+            });
+        }
+        log.oblige("records_iterator_adaptors");
     }
 
     // comment lines with arbitrary content (TAB, unbalanced double quotes, very long, `#` only),
